@@ -347,6 +347,16 @@ func c04Functions(c *Ctx, r *rand.Rand) []*c04Fn {
 			add(&c04Fn{T: t, Op: op, Pos: "vv", Arity: 2}, fmt.Sprintf("func FN(a, b %s) %s { return a %s b }", t, rt, op))
 			add(&c04Fn{T: t, Op: op, Pos: "vv-assign", Arity: 2}, fmt.Sprintf("func FN(a, b %s) %s {\n\tc := a %s b\n\treturn c\n}", t, rt, op))
 			add(&c04Fn{T: t, Op: op, Pos: "vv-any", Arity: 2}, fmt.Sprintf("func FN(a, b %s) any { return a %s b }", t, op))
+			if op == "<<" || op == ">>" {
+				// the count of a shift may have any integer type: the result has the type of the LEFT operand
+				for _, ct := range c04Types {
+					if ct == t {
+						continue
+					}
+					add(&c04Fn{T: t, Op: op, Pos: "shift-count-" + ct, Arity: 2}, fmt.Sprintf("func FN(a, b %s) any {\n\tif uint32(b) < 100 {\n\t\treturn a %s %s(b)\n\t}\n\treturn a %s b\n}", t, op, ct, op))
+					add(&c04Fn{T: t, Op: op, Pos: "shift-assign-count-" + ct, Arity: 2}, fmt.Sprintf("func FN(a, b %s) any {\n\tif uint32(b) < 100 {\n\t\ta %s= %s(b)\n\t\treturn a\n\t}\n\ta %s= b\n\treturn a\n}", t, op, ct, op))
+				}
+			}
 			if !isCmp(op) {
 				add(&c04Fn{T: t, Op: op, Pos: "opassign-local", Arity: 2}, fmt.Sprintf("func FN(a, b %s) %s {\n\ta %s= b\n\treturn a\n}", t, t, op))
 				add(&c04Fn{T: t, Op: op, Pos: "opassign-global", Arity: 2}, fmt.Sprintf("func FN(a, b %s) %s {\n\tG_%s = a\n\tG_%s %s= b\n\treturn G_%s\n}", t, t, t, t, op, t))
